@@ -500,6 +500,35 @@ theorem C32_energy_factor [Field K] (cast : Int → K) (h1 : cast 1 = 1)
   simp only [hadd, List.map_const', List.map_replicate, List.prod_replicate, h1]
   norm_num
 
+/-- C32_energy_count_is_straddled: the `2 ** count` of a reduce_volume EnergyDetector counts the planes THIS detector
+    crosses (symmetric axis AND negative unclipped start), not the symmetric axes of the configuration. -/
+theorem C32_energy_count_is_straddled {α : Type} [Mul α] [Div α] (cast : Int → α) (d : Det)
+    (hk : d.kind = Kind.energy) (sym start : Nat → Int) :
+    detFactors cast d (fun a => touchedOf (sym a) (start a)) =
+      some [cast ((2 : Int) ^ ([0, 1, 2].filter (fun a => decide (sym a ≠ 0 ∧ start a < 0))).length)] := by
+  have hf : touchedAxes (fun a => touchedOf (sym a) (start a)) =
+      [0, 1, 2].filter (fun a => decide (sym a ≠ 0 ∧ start a < 0)) := by
+    unfold touchedAxes
+    apply List.filter_congr
+    intro a _
+    unfold touchedOf
+    by_cases h : start a < 0 <;> by_cases h0 : sym a = 0 <;> simp [h, h0]
+  unfold detFactors perComponent
+  simp only [hk, compParities]
+  rw [hf]
+  generalize ([0, 1, 2].filter (fun a => decide (sym a ≠ 0 ∧ start a < 0))) = l
+  have hm : ∀ t : List Nat, (t.mapM (fun _ => (some [1] : Option (List Int)))) = some (t.map (fun _ => [1])) := by
+    intro t
+    induction t with
+    | nil => simp
+    | cons a t ih => simp [List.mapM_cons, ih]
+  simp [hm]
+
+/-- a detector inside the upper x half of an (x, y)-symmetric domain that crosses only the y plane: factor 2, not 4 -/
+example : detFactors (fun p : Int => p)
+    { kind := .energy, comps := [], reduceVolume := true, exact := false, asSlices := false, keepAll := false, propAxis := 0 }
+    (fun a => touchedOf (sym3 1 1 0 a) (sym3 1 (-4) 0 a)) = some [2] := by decide
+
 /-- non-vacuity: a 1×1×2 record, touched by an x- and a z-plane, odd along z -/
 example : sum3 (unfold3 (sym3 (-1) 0 1) (fun a => if a = 2 then (-1 : Int) else 1) (fun _ => false) [[[3, 5]]]) = 0
     ∧ sum3 (unfold3 (sym3 (-1) 0 1) (fun _ => (1 : Int)) (fun _ => false) [[[3, 5]]]) = 4 * 8 := by decide
